@@ -3,7 +3,7 @@
    set-maximum calls with ANY completion schedules (Model.v), for the repaired close() (fix = true). *)
 From Coq Require Import List ZArith Bool Arith.
 Import ListNotations.
-Require Import DH.C01_Evaluator.Model DH.C01_Evaluator.Lemmas DH.C01_Evaluator.Lemmas2 DH.C01_Evaluator.Check DH.C01_Evaluator.Lemmas3.
+Require Import DH.C01_Evaluator.Model DH.C01_Evaluator.Lemmas DH.C01_Evaluator.Lemmas2 DH.C01_Evaluator.Check DH.C01_Evaluator.Lemmas3 DH.C01_Evaluator.Lemmas4.
 
 (* never lost, never twice, never both: every submitted id is either still running (once) or in the hand-back log (once) *)
 Theorem C01_exactly_once : forall ops j, j < njobs (run true ops) ->
@@ -51,6 +51,14 @@ Print Assumptions C01_usable_after_close.
 Theorem C01_accepted_history_is_run : forall h s', replay init 0 h = (None, s') -> exists ops, run true ops = s'.
 Proof. intros h s'. apply replay_reachable. exists []. reflexivity. Qed.
 Print Assumptions C01_accepted_history_is_run.
+
+(* ... and conversely the oracle demands nothing more than the model does: whatever a gather of the model hands back,
+   under ANY schedule, is accepted (no false alarm on behaviour the model allows) *)
+Theorem C01_model_gather_is_accepted : forall ops k all sched l,
+  snd (gather k all sched (run true ops)) = OJobs l -> l <> [] ->
+  exists s', accept_gather k all (map (fun x => fst (fst x)) l) (run true ops) = Some s'.
+Proof. intros ops k all sched l. exact (gather_is_accepted k all sched _ l (inv_run ops)). Qed.
+Print Assumptions C01_model_gather_is_accepted.
 
 (* the pinned code (close leaves cancelled tasks of a closed loop in _tasks_running) is not usable after close: F01 *)
 Theorem C01_prefix_unusable_after_close_refuted :
